@@ -519,10 +519,52 @@ fn ladders(rep: &Report, cfg: &str, bin: &str, full: bool, l: &mut Local) {
     let outs: Vec<(&(String, usize, &str), ChildOut)> = jobs.par_iter().map(|j| (j, run_child(bin, &["rung".into(), j.0.clone(), j.1.to_string(), j.2.to_string()], 600))).collect();
     let mut worst_peak = 0f64;
     let mut worst_total = 0f64;
+    // decode time per (family, stack, n) for the growth test
+    let mut times: std::collections::BTreeMap<(String, String), Vec<(usize, f64)>> = std::collections::BTreeMap::new();
     for ((name, n, stack), c) in outs {
         let (p, t) = eval_rung(cfg, name, *n, stack, &c, l);
         worst_peak = worst_peak.max(p);
         worst_total = worst_total.max(t);
+        if let (Some(j), true) = (&c.json, c.ok) {
+            times.entry((name.clone(), stack.to_string())).or_default().push((*n, j["ms"].as_u64().unwrap_or(0) as f64));
+        }
+    }
+    // growth: quadrupling the size parameter must not multiply the decode time by much more than
+    // four once the time is measurable (a quadratic family gives 16).  Suspicious pairs are
+    // re-measured three times sequentially and the minima compared, so that scheduling noise on
+    // a busy machine cannot raise the alarm.
+    for ((name, stack), mut v) in times {
+        v.sort_by(|a, b| a.0.cmp(&b.0));
+        let (n_hi, t_hi) = match v.last() {
+            Some(x) => *x,
+            None => continue,
+        };
+        let lo = v.iter().find(|(n, _)| *n * 4 == n_hi);
+        if let Some((n_lo, t_lo)) = lo {
+            if t_hi >= 40.0 && t_hi > 9.0 * t_lo.max(1.0) {
+                let remeasure = |n: usize| -> f64 {
+                    (0..3)
+                        .filter_map(|_| {
+                            let c = run_child(bin, &["rung".into(), name.clone(), n.to_string(), stack.clone()], 600);
+                            c.json.as_ref().and_then(|j| j["ms"].as_u64()).map(|x| x as f64)
+                        })
+                        .fold(f64::INFINITY, f64::min)
+                };
+                let (m_hi, m_lo) = (remeasure(n_hi), remeasure(*n_lo));
+                l.count("ladder.growth_remeasured");
+                if m_hi.is_finite() && m_lo.is_finite() && m_hi >= 40.0 && m_hi > 9.0 * m_lo.max(1.0) {
+                    let fam_key = name.split(':').take(2).collect::<Vec<_>>().join(":");
+                    l.viol(Viol {
+                        key: format!("C01:time-superlinear:{}", fam_key),
+                        space: format!("c01.{}", cfg),
+                        case: format!("family={} stack={} cfg={} n={} vs n={}", name, stack, cfg, n_hi, n_lo),
+                        direct: None,
+                        expected: "decode time grows about 4x when the input grows 4x".into(),
+                        observed: format!("{} ms at n={} vs {} ms at n={} (minimum of three runs each)", m_hi, n_hi, m_lo, n_lo),
+                    });
+                }
+            }
+        }
     }
     rep.bound(&format!("c01.ladders.{}.worst_peak_bytes_per_input_byte", cfg), json!(worst_peak));
     rep.bound(&format!("c01.ladders.{}.worst_total_bytes_per_input_byte", cfg), json!(worst_total));
